@@ -223,8 +223,21 @@ def is_finite_num(x):
 
 
 # ---------- the termination measure of proofs/Termination.v, for traces of the implementation
+class TooBig(Exception):
+    pass
+
+
+def power_depth(e):
+    d = 0
+    for c in children(e):
+        d = max(d, power_depth(c))
+    return d + (1 if e[0] in ('Power', 'Exp') else 0)
+
+
 def mu(e):
     """(#Power, #{Power,NthPow,NthRoot,Exp,Log}, sum of n over NthPow/NthRoot, W)"""
+    if power_depth(e) > 10:
+        raise TooBig()          # W squares at every Power/Exp level: the number itself gets too long to write down
     g1 = g2 = g3 = 0
     for s in subterms(e):
         h = s[0]
